@@ -401,7 +401,7 @@ class World:
         hist = self._hist(op)
         if len(clusters) >= 1 or hist:
             self.nontrivial.add(sha([op["s"], params, ev["picks"] or op["seedspec"], hist]))
-        if len(self.samples) < 2:
+        if len(self.samples) < 2 and clusters:
             self.samples.append(
                 dict(
                     op="CLUSTER",
